@@ -303,6 +303,9 @@ def _check_clock(case, res, nontrivial):
                 if o.kind == 'budget':
                     res.inconclusive = True
                     return
+                if o.kind == 'escaped' and o.exc == 'CaseTimeout':
+                    res.inconclusive = True
+                    return
                 if o.kind != 'ok':
                     res.fail('escaped.%s@%s' % (o.exc, o.frame), '%s -> %r\n%s' % (desc, o, o.tb))
                     return
@@ -377,6 +380,9 @@ def check_env(case, res):
                     before = dict(os.environ)
                     o = s.execute(b'ENVIRON E$')
                     if o.kind == 'budget':
+                        res.inconclusive = True
+                        return
+                    if o.kind == 'escaped' and o.exc == 'CaseTimeout':
                         res.inconclusive = True
                         return
                     if o.kind != 'ok':
